@@ -1484,14 +1484,27 @@ fn mul_helper_multi_zero_inclusive(
     }
     // Since unbounded cases are handled above, we can safely
     // use the utility functions here to eliminate code duplication.
-    let lower = min_of_bounds(
-        &mul_bounds::<false>(dt, &lhs.lower, &rhs.upper),
-        &mul_bounds::<false>(dt, &rhs.lower, &lhs.upper),
+    let lower_candidates = (
+        mul_bounds::<false>(dt, &lhs.lower, &rhs.upper),
+        mul_bounds::<false>(dt, &rhs.lower, &lhs.upper),
     );
-    let upper = max_of_bounds(
-        &mul_bounds::<true>(dt, &lhs.upper, &rhs.upper),
-        &mul_bounds::<true>(dt, &lhs.lower, &rhs.lower),
+    let upper_candidates = (
+        mul_bounds::<true>(dt, &lhs.upper, &rhs.upper),
+        mul_bounds::<true>(dt, &lhs.lower, &rhs.lower),
     );
+    // A product that overflows is reported as a `NULL` (unbounded) bound. Such a
+    // bound must win: `min_of_bounds` / `max_of_bounds` treat `NULL` as the
+    // opposite infinity and would keep the finite candidate instead.
+    let lower = if lower_candidates.0.is_null() || lower_candidates.1.is_null() {
+        ScalarValue::try_from(dt).unwrap()
+    } else {
+        min_of_bounds(&lower_candidates.0, &lower_candidates.1)
+    };
+    let upper = if upper_candidates.0.is_null() || upper_candidates.1.is_null() {
+        ScalarValue::try_from(dt).unwrap()
+    } else {
+        max_of_bounds(&upper_candidates.0, &upper_candidates.1)
+    };
     // There is no possibility to create an invalid interval.
     Interval::new(lower, upper)
 }
